@@ -67,6 +67,24 @@ Theorem c14_crash_atomic : forall port hm s k,
 Proof. exact crash_atomic. Qed.
 Print Assumptions c14_crash_atomic.
 
+(* (4b) A later call after a crashed one.  Stop a call of port `port` after any number k of
+       primitives (the hosts file is then the previous or the next complete version, (4));
+       whatever it left behind — a backup, a temporary of any length and content — a complete
+       call by the same or any other port then terminates, leaves no temporary of its own, and
+       installs exactly the next version computed from the hosts file it found: nothing of a
+       stale temporary survives, because open(tmpname, 'w') truncates (step, AtOpen).
+       c14_rewrite already holds for EVERY file system state (any pre-existing temporary);
+       this spells out the states a crash produces. *)
+Theorem c14_rewrite_after_crash : forall port hm s k port2 hm2,
+  let '(_, s1, _) := run_k k (start port hm) s in
+  let '(i2, s2, _) := rewrite_fs port2 hm2 s1 in
+  (hosts_data s1 = hosts_data s \/ hosts_data s1 = next_version port hm s) /\
+  i_pc i2 = AtDone /\
+  fs_get (PTmp port2) s2 = None /\
+  exists f, fs_get PHosts s2 = Some f /\ f_data f = next_version port2 hm2 s1.
+Proof. intros port hm s k port2 hm2. exact (rewrite_after_crash port hm s k port2 hm2). Qed.
+Print Assumptions c14_rewrite_after_crash.
+
 Theorem c14_only_rename_changes_hosts : forall i s,
   (forall q, snd (step i s) <> Some (OpRename q)) ->
   fs_get PHosts (snd (fst (step i s))) = fs_get PHosts s.
@@ -192,3 +210,14 @@ Example c14_rewrite_example :
 1.2.3.5 myotherhost            # sshuttle-firewall-10 AUTOCREATED
 "%string.
 Proof. vm_compute. reflexivity. Qed.
+
+(* non-vacuity of "any pre-existing temporary": the stale temporary of port 12300 is longer
+   than the next version and holds deleted lines and marked lines of a dead session *)
+Example c14_stale_temporary_example :
+  fs_get (PTmp 12300) stale_s0 <> None /\
+  let '(i, s', _) := rewrite_fs 12300 [(bytes_of_string "d"%string, bytes_of_string "10.1.1.1"%string)] stale_s0 in
+  i_pc i = AtDone /\ fs_get (PTmp 12300) s' = None /\
+  hosts_data s' = bytes_of_string "127.0.0.1 localhost
+10.1.1.1 d                     # sshuttle-firewall-12300 AUTOCREATED
+"%string.
+Proof. vm_compute. repeat split. discriminate. Qed.
